@@ -17,6 +17,9 @@ func (tempErr) Temporary() bool { return true }
 type AcceptItem struct {
 	Conn *Conn
 	Temp bool
+	// NetConn, when set, is what Accept returns instead of Conn (a multistream connection over
+	// the SCTP backend, a *tls.Conn wrapped around a Conn, ...)
+	NetConn net.Conn
 }
 
 type Listener struct {
@@ -44,6 +47,9 @@ func (l *Listener) Accept() (net.Conn, error) {
 		return nil, tempErr{}
 	}
 	l.NAccepted++
+	if it.NetConn != nil {
+		return it.NetConn, nil
+	}
 	return it.Conn, nil
 }
 
